@@ -141,6 +141,15 @@ class TWorld:
                 self.raised = "load_h5: " + r
             else:
                 self.mem[e["h"]] = r
+        elif op == "retable":
+            # the shared single-agent table changes in place: every sample in memory becomes another value (a new identity token)
+            objs = {id(t): t for h in self.mem.values() if h is not None for t in h.thetas}
+            old = {i: self.tok.get(digest(t), 999) for i, t in objs.items()}
+            key = sorted(self.lut.keys())[0]
+            self.lut[key] = float(self.lut[key]) * 0.5 + 0.123
+            self.lut[(NS + 7, NT + 7)] = 0.5 + 0.01 * len(self.events)          # and it grows
+            for i, t in objs.items():
+                self.tok[digest(t)] = old[i] + 1000 * (len(self.events) + 1)
         elif op == "concat":
             st, r = outcome(ThetaHolder.concat, [self.mem[e["a"]], self.mem[e["b"]]])
             if st != "ok":
@@ -207,6 +216,40 @@ def chains_round(kind, sizes, order, tmp, seed):
             "chain_ids": [int(x) for x in me.chain_ids], "events": []}
 
 
+def random_history(rnd, n):
+    """longer than TLC's depth: holder operations in random order (Load only of a file that exists, Retable only before the first load)"""
+    h = [{"op": "new", "h": 1, "cap": rnd.randint(0, 3)}, {"op": "new", "h": 2, "cap": rnd.randint(1, 3)}]
+    caps, fill = {1: h[0]["cap"], 2: h[1]["cap"], 3: 0}, {1: 0, 2: 0, 3: 0}
+    on_disk, loaded = set(), False
+    while len(h) < n:
+        op = rnd.choice(["add", "add", "add", "get", "save", "save", "load", "concat", "retable", "retable"])
+        if op == "add":
+            x = rnd.randint(1, 3)
+            h.append({"op": "add", "h": x})
+            fill[x] += 1 if fill[x] < caps[x] else 0
+        elif op == "get":
+            x = rnd.randint(1, 3)
+            h.append({"op": "get", "h": x, "i": rnd.randint(-1, 3)})
+        elif op == "save":
+            x, p_ = rnd.randint(1, 3), rnd.randint(1, 2)
+            h.append({"op": "save", "h": x, "p": p_})
+            if fill[x] > 0:
+                on_disk.add(p_)
+                disk_fill = dict(getattr(random_history, "_df", {}))
+        elif op == "load" and on_disk:
+            p_, x = rnd.choice(sorted(on_disk)), rnd.randint(1, 2)
+            h.append({"op": "load", "h": x, "p": p_})
+            loaded = True
+            caps[x], fill[x] = 9, 1          # (exact sizes do not matter for enabling)
+        elif op == "concat":
+            a, b = rnd.randint(1, 3), rnd.randint(1, 3)
+            h.append({"op": "concat", "a": a, "b": b})
+            caps[3], fill[3] = caps[a] + caps[b], fill[a] + fill[b]
+        elif op == "retable" and not loaded:
+            h.append({"op": "retable"})
+    return h
+
+
 OPS_INV = ["CapRespected", "NeverSavedEmpty", "LexDiffers", "ExportPath", "ExportChains"]
 
 
@@ -223,14 +266,20 @@ def run(ctx):
                     note="holder operations, cap<=2, depth %d" % depth, coverage=True, workers=8)
         if r.violation:
             ctx.violation("design-level: ThetaStore(ops) violates %s" % r.violation, {"kind": "tlc", "tlc": r.violation_text[:3000]})
-        ctx.need_coverage(r, ["NewHolder", "Add", "Get", "Save", "Load", "Concat"])
+        ctx.need_coverage(r, ["NewHolder", "Add", "Get", "Save", "Load", "Concat", "Retable"])
         paths = [p["hist"] for p in r.by_tag("path") if len(p["hist"]) >= 3]
         paths.sort(key=lambda h: -len(h))
         budget = 250 if ctx.quick else 3000
         pick = paths[:budget // 3] + rnd.sample(paths, min(len(paths), budget - budget // 3))
+        # histories beyond the explored depth (among them: save, shared table updated in place, save again, reload)
+        pick += [[{"op": "new", "h": 1, "cap": 2}, {"op": "new", "h": 2, "cap": 2}, {"op": "add", "h": 1}, {"op": "save", "h": 1, "p": 1}, {"op": "retable"},
+                  {"op": "save", "h": 1, "p": 2}, {"op": "add", "h": 1}, {"op": "retable"}, {"op": "save", "h": 1, "p": 1}, {"op": "load", "h": 2, "p": 1}]]
+        pick += [random_history(rnd, rnd.randint(7, 12)) for _ in range(40 if ctx.quick else 600)]
         traces = []
         for i, h in enumerate(pick):
-            w = TWorld(["combo", "inter"][i % 2], tmp, ctx.seed + i, table=["full", "full", "empty"][i % 3])
+            # (only the interaction sample type has shared parameters that can change in place)
+            kind = "inter" if any(e["op"] == "retable" for e in h) else ["combo", "inter"][i % 2]
+            w = TWorld(kind, tmp, ctx.seed + i, table=["full", "full", "empty"][i % 3] if kind == "combo" or not any(e["op"] == "retable" for e in h) else "full")
             for e in h:
                 if not w.do({k: v for k, v in e.items()}):
                     ctx.violation("holder history %s: %s" % ([x["op"] for x in h], w.raised), {"kind": "ops", "hist": h, "i": i})
